@@ -125,9 +125,9 @@ func main() {
 	guardProbes()
 	fixedCases()
 
-	nTrie := lib.Pick(9000, 400000)
-	nSecure := lib.Pick(3000, 100000)
-	nState := lib.Pick(6000, 200000)
+	nTrie := lib.Pick(9000, 150000)
+	nSecure := lib.Pick(3000, 40000)
+	nState := lib.Pick(6000, 80000)
 	// interleave the three lists so that the work is spread evenly
 	total := nTrie + nSecure + nState
 	lib.Parallel(total, 16, func(i int) {
